@@ -307,6 +307,50 @@ class Dmn(Family):
             table_op(False)
             for r in table[-2:]:
                 steps.append(st("write_mem", [r[0] + rng.choice([0, 8, r[1] - 8, r[1] // 2])], rng.bytes(8)))
+        if failing and rng.chance(1, 2):
+            # the connection died on a refused request: a new frontend connects to the same daemon, negotiates again and
+            # looks at what the refused request left behind - the previous table must still be the one in force, for
+            # guest memory and for the translation of ring addresses alike
+            bad = self.region(rng, True)
+            if table and rng.chance(2, 3):
+                # an ADD_MEM_REG that overlaps an existing region in guest-physical space under a user range of its own
+                r0 = rng.choice(table)
+                bad = [r0[0], r0[1], 0x7f0000800000 + 0x10000 * rng.below(4), r0[3], r0[4]]
+            steps.append(st("add_mem", bad))
+            steps.append(st("reconnect"))
+            steps.append(st("set_protocol_features", [W.PF_ALL]))
+            q0 = rng.below(nq)
+            steps.append(st("set_vring_addr", [q0, 0, bad[2], bad[2] + 0x200, bad[2] + 0x100]))
+            steps.append(st("queue_state", [q0]))
+            for r in table[:2]:
+                steps.append(st("set_vring_addr", [q0, 0, r[2], r[2] + 0x200, r[2] + 0x100]))
+                steps.append(st("queue_state", [q0]))
+                steps.append(st("write_mem", [r[0] + 0x20], rng.bytes(8)))
+                steps.append(st("guest_read", [r[4], r[3] + 0x20, 8]))
+            steps.append(st("regions"))
+            steps.append(st("snapshot"))
+            if log[0] is not None and rng.chance(1, 2):
+                # memory added on the new connection is still logged into the log that was accepted on the old one
+                for _ in range(10):
+                    n = self.region(rng)
+                    if all(n[0] + n[1] <= x[0] or x[0] + x[1] <= n[0] for x in table) and \
+                       all(n[2] + n[1] <= x[2] or x[2] + x[1] <= n[2] for x in table + gone) and n[0] != bad[0]:
+                        steps.append(st("add_mem", n))
+                        table.append(n)
+                        steps.append(st("write_mem", [n[0] + 8], rng.bytes(8)))
+                        break
+                log_reads()
+        if log[0] is not None and table and rng.chance(1, 3):
+            # a second SET_LOG_BASE that must be refused (its window covers the lowest region at most): the log in force
+            # stays in force for every region, and writes after the refusal are still recorded in it
+            lo = min(table, key=lambda r: r[0])
+            small = max(1, ((lo[0] + lo[1] - 1) // 4096) // 8 + 1)
+            need = max(((r[0] + r[1] - 1) // 4096) // 8 + 1 for r in table)
+            if small < need or rng.chance(1, 2):
+                steps.append(st("set_log_base", [min(small, need - 1) if need > 1 else 0, 0x8000, 4]))
+                for r in table[:3]:
+                    steps.append(st("write_mem", [r[0] + rng.choice([0, 0x1000 if r[1] > 0x1000 else 8])], rng.bytes(8)))
+                log_reads()
         if rng.chance(1, 5):
             # a table that is valid region by region but not listed in ascending guest order, every region backed by its
             # own file with known content: refused, or accepted with every region showing its own file
